@@ -52,7 +52,8 @@ def _to_world(case: dict, lat) -> "Any":
     import numpy as np
 
     fr = _v(FRAMES[case["frame"]])
-    return _v(ORIGINS[case["frame"]]) + lat[0] * fr[0] + lat[1] * fr[1] + lat[2] * fr[2]
+    # `scale`: the same geometry in other units (round 4: 0.1 mm cells in a model in metres)
+    return case.get("scale", 1.0) * (_v(ORIGINS[case["frame"]]) + lat[0] * fr[0] + lat[1] * fr[1] + lat[2] * fr[2])
 
 
 def _dir_world(case: dict, d) -> "Any":
@@ -132,6 +133,7 @@ class Scenario:
             clamp = self.make_clamp(spec, self.mesh.vertices[idx].position if live else self.initial[idx])
             self.opt.add_clamp(clamp)
             self.clamps.append((spec, clamp, idx))
+        self.rejected = []  # outcome of add_link for links that must be refused (follower is no point of the grid)
         for spec in case["links"]:
             li = self.index_of[tuple(spec["leader"])]
             fi = self.index_of[tuple(spec["follower"])]
@@ -141,6 +143,17 @@ class Scenario:
                 link = self.make_link(spec, self.initial[li], self.initial[fi])
             self.opt.add_link(link)
             self.links.append((spec, link, li, fi))
+        from classy_blocks.optimize.grid import InvalidLinkError
+
+        for spec in case.get("bad_links", []):
+            # the caller tries a candidate that is not a vertex, catches the refusal and goes on
+            li = self.index_of[tuple(spec["leader"])]
+            link = self.make_link(spec, self.initial[li], _to_world(case, spec["phantom"]))
+            try:
+                self.opt.add_link(link)
+                self.rejected.append("accepted")
+            except InvalidLinkError:
+                self.rejected.append("InvalidLinkError")
 
     # local frame of a clamp spec, in world coordinates
     def _frame(self, spec):
@@ -160,8 +173,10 @@ class Scenario:
         import classy_blocks as cb
 
         t = spec["type"]
+        if spec.get("as") == "lists":
+            p = np.array([float(x) for x in p])  # the clamp classes get python lists below where they accept them
         if t == "free":
-            return cb.FreeClamp(p)
+            return cb.FreeClamp([float(x) for x in p] if spec.get("as") == "lists" else p)
         if t == "line":
             d = _dir_world(self.case, spec["dir"])
             d = d / np.linalg.norm(d)
@@ -201,6 +216,17 @@ class Scenario:
         import classy_blocks as cb
 
         t = spec["type"]
+        form = spec.get("as")
+        if form == "lists":
+            leader, follower = [float(x) for x in leader], [float(x) for x in follower]
+        elif form in ("ints", "int_tuples"):
+            # typed by hand: cb.TranslationLink([0.1, 1.2, 0.0], [0, 2, 0]); whole numbers only where exact
+            def hand(p):
+                return [int(x) if float(x) == int(x) else float(x) for x in p]
+
+            leader, follower = hand(leader), hand(follower)
+            if form == "int_tuples":
+                leader, follower = tuple(leader), tuple(follower)
         if t == "translation":
             return cb.TranslationLink(leader, follower)
         if t == "rotation":
@@ -238,6 +264,17 @@ class Recorder:
         self.clamp_pos0: List[List[float]] = []
         self.link_no = {id(l): n for n, (_, l, _, _) in enumerate(sc.links)}
         self.last_update_raised = False
+
+    def link_id(self, link) -> int:
+        if id(link) not in self.link_no:
+            self.link_no[id(link)] = len(self.link_no)
+            self._keep = getattr(self, "_keep", []) + [link]
+        return self.link_no[id(link)]
+
+    def grid_links(self) -> List[List[int]]:
+        """the links as the GRID has them registered: [leader junction, follower index as python indexes it, id]"""
+        n = len(self.grid.points)
+        return [[jn.index, il.follower_index % n, self.link_id(il.link)] for jn in self.grid.junctions for il in jn.links]
 
     def ensure_clamps(self) -> None:
         """clamp number j = position in `grid.clamps` (junction order); read from the grid itself, at first use"""
@@ -311,7 +348,7 @@ class Recorder:
         finally:
             st = self.state()
             for il in junction.links:
-                self._put(self.lnk, (self.link_no[id(il.link)], posid), self.pid(il.link.follower), "lnk")
+                self._put(self.lnk, (self.link_id(il.link), posid), self.pid(il.link.follower), "lnk")
             if len(junction.links) > 0:
                 self._put(self.G, st, res, "G")
                 self._put(self.J, (index, st), self._quality(lambda: junction.quality), "J")
@@ -451,7 +488,9 @@ class C13(core.Check):
         "(bounded RadialClamp at radius 0.3..0.7 with the optimum beyond the bounds; admissible arc taken from the case), "
         "reuse (clamps / links built from the live vertex.position arrays, two or three optimize() calls with different "
         "methods, the last possibly from a new optimizer re-using the clamp objects; every call modelled and judged "
-        "against the geometry given at the start), "
+        "against the geometry given at the start), variants (positions typed by hand: lists / tuples, whole numbers as "
+        "ints), micro (the lattice with 0.05..0.2 mm cells), rejected (link candidates whose follower is no grid point "
+        "are refused, the error is caught, then optimize), "
         "boundary (0 iterations, no clamps, auto_optimize). Non-trivial = at least one accepted (improved) step or a "
         "rollback / skip; distinct = different case description."
     )
@@ -754,6 +793,108 @@ class C13(core.Check):
         case.update({"live": True, "calls": calls, "method": calls[-1][0], "max_iterations": calls[-1][1]})
         return case
 
+    def _gen_variants(self, rng: random.Random) -> dict:
+        """round 4: API variants.  Positions typed by hand: clamps and links get python lists / tuples, whole numbers
+        as ints (cb.TranslationLink([0.1, 1.2, 0.0], [0, 2, 0])).  Identity frame; the follower sits exactly on its
+        (integer) lattice position, the clamped leader is displaced."""
+        kind = rng.choice(["mesh", "sketch"])
+        dims = rng.choice([[2, 1, 1], [1, 2, 1], [2, 2, 1]]) if kind == "mesh" else rng.choice([[2, 2, 0], [3, 2, 0]])
+        case: Dict[str, Any] = {"kind": kind, "dims": dims, "frame": "id", "stream": "variants"}
+        lat = lattice_points(case)
+        jitter = {p: [rng.randint(-8, 8) / 64, rng.randint(-8, 8) / 64, (rng.randint(-8, 8) / 64 if kind == "mesh" else 0.0)] for p in lat}
+        leader = rng.choice(lat)
+        jitter[leader] = [rng.choice([-1, 1]) * rng.randint(9, 16) / 64, rng.choice([-1, 1]) * rng.randint(9, 16) / 64, (rng.randint(-12, 12) / 64 if kind == "mesh" else 0.0)]
+        others = [p for p in lat if p != leader]
+        rng.shuffle(others)
+        links = []
+        for n, f in enumerate(others[: rng.choice([1, 1, 2])]):
+            jitter[f] = [0.0, 0.0, 0.0]
+            links.append({"leader": list(leader), "follower": list(f), "type": "translation",
+                          "as": rng.choice(["ints", "int_tuples"] if n == 0 else ["ints", "int_tuples", "lists"])})
+        clamp: Dict[str, Any] = {"at": list(leader), "type": "free" if kind == "mesh" else "plane", "as": "lists"}
+        if kind == "sketch":
+            clamp["normal"] = [0.0, 0.0, 1.0]
+        case.update(
+            {
+                "jitter": [jitter[p] for p in lat],
+                "clamps": [clamp],
+                "links": links,
+                "method": rng.choice(["Nelder-Mead", "Powell", "Nelder-Mead", "SLSQP", "L-BFGS-B"]),
+                "max_iterations": rng.choice([1, 2]),
+                "tolerance": 0.1,
+                "np_seed": rng.randint(0, 2**31 - 1),
+            }
+        )
+        return case
+
+    def _gen_micro(self, rng: random.Random) -> dict:
+        """round 4: small absolute dimensions.  The lattice in other units: cells of 0.05 .. 0.2 mm in a model in
+        metres (still three orders of magnitude above the library's point tolerance 1e-7).  Only clamp types whose
+        constructor finds its parameters exactly (free, plane / line / circle through the vertex) are used."""
+        scale = rng.choice([5e-5, 1e-4, 1e-4, 2e-4])
+        kind = rng.choice(["mesh", "sketch", "sketch"])
+        dims = rng.choice([[2, 1, 1], [1, 1, 2], [2, 2, 1]]) if kind == "mesh" else rng.choice([[2, 2, 0], [3, 2, 0], [2, 1, 0]])
+        case: Dict[str, Any] = {"kind": kind, "dims": dims, "frame": rng.choice(list(FRAMES)), "stream": "micro", "scale": scale}
+        lat = lattice_points(case)
+        jitter = {p: [rng.randint(-10, 10) / 64, rng.randint(-10, 10) / 64, (rng.randint(-10, 10) / 64 if kind == "mesh" else 0.0)] for p in lat}
+        if kind == "sketch" and dims[:2] == [2, 2] and rng.random() < 0.3:
+            case.update({"jitter": [jitter[p] for p in lat], "clamps": [], "links": [], "auto": True, "method": rng.choice(METHODS),
+                         "max_iterations": 2, "tolerance": 0.1, "np_seed": rng.randint(0, 2**31 - 1)})
+            return case
+        chosen = rng.sample(lat[1:], rng.choice([1, 1, 2]))  # lattice point 0 may or may not be junction 0
+        clamps = []
+        for at in chosen:
+            t = rng.choice(["free", "plane", "line", "radial"] if kind == "mesh" else ["plane", "line", "radial"])
+            spec: Dict[str, Any] = {"at": list(at), "type": t}
+            inplane = [rng.choice([-1.0, 1.0, 0.5]), rng.choice([-1.0, 0.5, 1.0]), 0.0]
+            if t == "plane":
+                spec["normal"] = [0.0, 0.0, 1.0] if kind == "sketch" else self._rand_dir(rng)
+            elif t == "line":
+                spec.update({"dir": inplane if kind == "sketch" else self._rand_dir(rng), "a": 0.0, "b": scale, "from_vertex": True,
+                             "bounds": [-rng.randint(2, 4) / 8 * scale, rng.randint(2, 4) / 8 * scale]})
+            elif t == "radial":
+                c = [at[0] + rng.choice([-1, 1]) * rng.randint(6, 12) / 8, at[1] + rng.randint(-6, 6) / 8, float(at[2])]
+                spec.update({"center": c, "normal": [0.0, 0.0, rng.choice([1.0, -1.0])]})
+                if rng.random() < 0.5:
+                    spec["bounds"] = [-rng.randint(1, 3) / 8 * scale, rng.randint(1, 3) / 8 * scale]
+            clamps.append(spec)
+        links = []
+        free = [p for p in lat if p not in chosen]
+        if free and rng.random() < 0.4:
+            links.append({"leader": list(chosen[0]), "follower": list(rng.choice(free)), "type": "translation"})
+        case.update(
+            {
+                "jitter": [jitter[p] for p in lat],
+                "clamps": sorted(clamps, key=lambda c: c["at"]),
+                "links": links,
+                "method": rng.choice(METHODS),
+                "max_iterations": rng.choice([1, 2]),
+                "tolerance": 0.1,
+                "np_seed": rng.randint(0, 2**31 - 1),
+            }
+        )
+        return case
+
+    def _gen_rejected(self, rng: random.Random, tier: str) -> dict:
+        """round 4: behaviour after a caught exception.  A valid case; in addition the caller offers one or two link
+        candidates whose follower is no point of the grid, add_link refuses them (InvalidLinkError, caught) and the
+        optimisation goes on: the refused links must have left nothing behind."""
+        case = self._gen_valid(rng, tier, "rejected")
+        ats = [c["at"] for c in case["clamps"]]
+        bad = []
+        for _ in range(rng.choice([1, 1, 2])):
+            leader = rng.choice(ats)
+            off = [rng.choice([-0.5, 0.5]), rng.choice([-0.5, 0.5]), 0.0 if case["kind"] == "sketch" else rng.choice([-0.5, 0.5])]
+            phantom = [leader[i] + off[i] for i in range(3)]
+            if rng.random() < 0.7:
+                bad.append({"leader": list(leader), "phantom": phantom, "type": "translation"})
+            else:
+                bad.append({"leader": list(leader), "phantom": phantom, "type": "symmetry", "normal": [1.0, 0.0, 0.0], "origin": [0.25, 0.5, 0.0]})
+        case["bad_links"] = bad
+        if case["max_iterations"] > 2:
+            case["max_iterations"] = 2
+        return case
+
     def _gen_symfree(self, rng: random.Random) -> dict:
         """a free clamp leading one or two links, the first a symmetry link whose plane does not pass through the
         origin (what `functions.mirror` used to spoil), at least two iterations"""
@@ -813,6 +954,9 @@ class C13(core.Check):
         cases += [self._gen_deglink(rng) for _ in range(5 if tier == "quick" else 24)]
         cases += [self._gen_radial_small(rng) for _ in range(4 if tier == "quick" else 32)]
         cases += [self._gen_reuse(rng, tier) for _ in range(5 if tier == "quick" else 40)]
+        cases += [self._gen_variants(rng) for _ in range(3 if tier == "quick" else 24)]
+        cases += [self._gen_micro(rng) for _ in range(4 if tier == "quick" else 32)]
+        cases += [self._gen_rejected(rng, tier) for _ in range(3 if tier == "quick" else 24)]
         for _ in range(1 if tier == "quick" else 5):
             cases += self._gen_boundary(rng, tier)
         return cases
@@ -849,7 +993,7 @@ class C13(core.Check):
                 grid = opt.grid
                 rec.begin_call()
                 co: Dict[str, Any] = {}
-                co["links"] = [[li, fi, n] for n, (_, _, li, fi) in enumerate(sc.links)]
+                co["links"] = rec.grid_links()
                 co["pts0"] = list(rec.state())
                 try:
                     co["q0"] = float(grid.quality)
@@ -897,6 +1041,12 @@ class C13(core.Check):
         # the last call at top level (what single-call cases always had), earlier ones under "prev"
         obs.update(per_call[-1])
         obs["prev"] = per_call[:-1]
+        obs["case_clamps"] = [[n, idx] for n, (_, _, idx) in enumerate(sc.clamps)]
+        if case.get("auto"):
+            nx = case["dims"][0] + 1
+            obs["case_clamps"] = [[-1, sc.index_of[p]] for p in sc.lat if 0 < p[0] < case["dims"][0] and 0 < p[1] < case["dims"][1]]
+        obs["case_links"] = [[li, fi] for _, _, li, fi in sc.links]
+        obs["rejected"] = sc.rejected
         obs["orig_pts0"] = per_call[0]["pts0"]
         obs["orig_q0"] = per_call[0]["q0"]
         obs["pos"] = [[k[0], k[1], v] for k, v in rec.pos.items()]
@@ -976,6 +1126,15 @@ class C13(core.Check):
     def compare(self, case: dict, impl: Any, model: List[str]) -> Optional[str]:
         if impl.get("conflicts"):
             return "recorded oracle graphs are not functional (a clamp function / link / quality answered differently for the same argument): " + "; ".join(impl["conflicts"])
+        # set-up: the grid must have the clamps on the junctions of the clamped vertices and exactly the links that
+        # were added successfully (the model's `Cfg` is read from the grid, the case says what it should be)
+        want_c = sorted(idx for _, idx in impl["case_clamps"])
+        for c in self._per_call(impl):
+            if sorted(c["clamp_idx"]) != want_c:
+                return f"clamps sit on junctions {sorted(c['clamp_idx'])}, the clamped vertices are {want_c}"
+            got_l = sorted([l[0], l[1]] for l in c["links"])
+            if got_l != sorted(impl["case_links"]):
+                return f"the grid has the links (leader, follower) {got_l} registered, successfully added were {sorted(impl['case_links'])}"
         for n, (c, ans) in enumerate(zip(self._per_call(impl), model)):
             why = self._compare_one(case, c, ans)
             if why:
@@ -1069,7 +1228,9 @@ class C13(core.Check):
             if not overlap:
                 out.append({"site": "optimize:quality-worse", "what": f"grid quality {impl['q0']} -> {impl['q1']}", "observed": impl["q1"], "expected": f"<= {impl['q0']}"})
         # 2. frame: neither clamped nor follower of a clamped leader -> bit-identical
-        clamped = set(impl["clamp_idx"])
+        # which vertices may move is taken from the CASE (vertex that was clamped, links that were added), not from
+        # what the implementation registered
+        clamped = {idx for _, idx in impl["case_clamps"]}
         followers = {l["follower"] for l in impl["link_data"] if l["leader"] in clamped}
         for i in range(len(P0)):
             if i not in clamped and i not in followers and ref[i] != impl["final"][i]:
@@ -1097,16 +1258,13 @@ class C13(core.Check):
         # 3. clamped vertices on their manifold and inside the bounds
         helper = _Geo(case)
         if not case.get("auto"):
-            for j, idx in enumerate(impl["clamp_idx"]):
-                if impl["clamp_spec"][j] < 0:
-                    continue
-                spec = case["clamps"][impl["clamp_spec"][j]]
-                p0 = np.array(impl["clamp_pos0"][j])
-                msg = helper.check_clamp(spec, P0[idx], p0, P1[idx], impl["final_prm_vals"][j])
+            for specno, idx in impl["case_clamps"]:
+                spec = case["clamps"][specno]
+                msg = helper.check_clamp(spec, P0[idx], None, P1[idx], None)
                 if msg:
                     out.append({"site": f"clamp.{spec['type']}:{msg[0]}", "what": f"clamp at {spec['at']}: {msg[1]}", "observed": P1[idx].tolist()})
         else:
-            for j, idx in enumerate(impl["clamp_idx"]):
+            for _, idx in impl["case_clamps"]:
                 if abs(float(np.dot(P1[idx] - P0[idx], _dir_world(case, [0, 0, 1])))) > EPS_GEO:
                     out.append({"site": "clamp.plane:off-manifold", "what": f"auto clamp {idx} left the sketch plane"})
         # 4. links
@@ -1226,8 +1384,9 @@ class _Geo:
 
         t = spec["type"]
         if t == "translation":
+            # follower = leader + (follower0 - leader0) in floats: a few ulps
             d = float(np.linalg.norm((f1 - l1) - (f0 - l0)))
-            return f"follower - leader changed by {d:.3e}" if d > EPS_GEO else None
+            return f"follower - leader changed by {d:.3e}" if d > 1e-9 else None
         if t == "symmetry":
             n = _dir_world(self.case, spec["normal"])
             n = n / np.linalg.norm(n)
